@@ -148,12 +148,12 @@ Definition run_op (t : ftable) (es : list expr) (p : op) (s : store) : string * 
   let u := ucall_of t in
   let fin {A} (sh : A -> string) (x : res A * store * list event) :=
     let '(r, s', l) := x in
-    (show_res sh r ++ "|" ++ String.concat " " (flat_map show_event (rev l)), s') in
+    (show_res sh r ++ "|" ++ String.concat " " (flat_map show_event l), s') in
   match p.(op_meth) with
-  | MEval => fin show_value (eval store mem_find mem_store p.(op_cfg) u default_fuel e p.(op_opts) s [])
-  | MValidate => fin (fun _ => "()") (validate store mem_find mem_store p.(op_cfg) u default_fuel e p.(op_opts) s [])
-  | MKeys => fin show_keys (keys store mem_find mem_store p.(op_cfg) u default_fuel e p.(op_opts) s [])
-  | MExplain => fin show_keys (explain store mem_find mem_store p.(op_cfg) u default_fuel e p.(op_opts) s [])
+  | MEval => fin show_value (eval store mem_find mem_store p.(op_cfg) u default_fuel e p.(op_opts) s)
+  | MValidate => fin (fun _ => "()") (validate store mem_find mem_store p.(op_cfg) u default_fuel e p.(op_opts) s)
+  | MKeys => fin show_keys (keys store mem_find mem_store p.(op_cfg) u default_fuel e p.(op_opts) s)
+  | MExplain => fin show_keys (explain store mem_find mem_store p.(op_cfg) u default_fuel e p.(op_opts) s)
   end.
 
 Fixpoint run_ops (t : ftable) (es : list expr) (ops : list op) (s : store) : list string :=
@@ -172,10 +172,10 @@ Definition nc_store (c : N) (f : fp) (v : value) (s : unit) : unit := tt.
 Definition cfg_nc : config := {| cache_ctx_off := true; log_ctx_off := false |}.
 
 Definition eval_nc (u : N -> list value -> cres) (fuel : nat) (e : expr) (o : dict) : res value * list event :=
-  let '(r, _, l) := eval unit nc_find nc_store cfg_nc u fuel e o tt [] in (r, rev l).
+  let '(r, _, l) := eval unit nc_find nc_store cfg_nc u fuel e o tt in (r, l).
 Definition keys_nc (u : N -> list value -> cres) (fuel : nat) (e : expr) (o : dict) : res (list key) * list event :=
-  let '(r, _, l) := keys unit nc_find nc_store cfg_nc u fuel e o tt [] in (r, rev l).
+  let '(r, _, l) := keys unit nc_find nc_store cfg_nc u fuel e o tt in (r, l).
 Definition validate_nc (u : N -> list value -> cres) (fuel : nat) (e : expr) (o : dict) : res unit * list event :=
-  let '(r, _, l) := validate unit nc_find nc_store cfg_nc u fuel e o tt [] in (r, rev l).
+  let '(r, _, l) := validate unit nc_find nc_store cfg_nc u fuel e o tt in (r, l).
 Definition explain_nc (u : N -> list value -> cres) (fuel : nat) (e : expr) (o : dict) : res (list key) * list event :=
-  let '(r, _, l) := explain unit nc_find nc_store cfg_nc u fuel e o tt [] in (r, rev l).
+  let '(r, _, l) := explain unit nc_find nc_store cfg_nc u fuel e o tt in (r, l).
